@@ -199,7 +199,8 @@ def execute(case):
         usable = [s for s in snaps if s[1] <= len(data) or not torn]
         if usable:
             b = usable[-1][0]
-            cuts = range(len(b)) if case.get('all_idx_cuts') or (len(b) <= 400 and not torn) else sorted({c % max(len(b), 1) for c in case['idx_cuts']} | {0, 1, len(b) - 1})
+            cuts = range(len(b)) if case.get('all_idx_cuts') or (len(b) <= 400 and not torn) else sorted(
+                {c % max(len(b), 1) for c in case['idx_cuts']} | {0, 1, len(b) - 1} | set(pickle_boundaries(b)))
             for c in cuts:
                 if 0 <= c < len(b):
                     compare({'.index': b[:c]}, 'index cut to %d of %d bytes' % (c, len(b)), True)
@@ -285,6 +286,24 @@ def execute(case):
         if out.failures:
             return done(out, nt)
     return done(out, nt)
+
+
+def pickle_boundaries(b):
+    """end positions of the pickles the index file is a sequence of (a cut there leaves whole records)"""
+    import pickletools
+    out, pos = [], 0
+    try:
+        while pos < len(b):
+            for op, arg, oppos in pickletools.genops(b[pos:]):
+                if op.name == 'STOP':
+                    pos += oppos + 1
+                    out.append(pos)
+                    break
+            else:
+                break
+    except Exception:           # noqa: B902  (not a pickle stream: no boundaries)
+        pass
+    return [x for x in out if x < len(b)]
 
 
 def old_format_index(b):
